@@ -31,7 +31,9 @@ const (
 
 var c11Names = []string{"data-next", "data-gap", "data-fragB", "data-dup", "data-far", "data-tsn5", "udata-frag", "fwd+2", "reset-req", "read-one", "read-all", "burst"}
 
-func heldTotal(a *Association) (int, string) {
+// heldTotal: user bytes held for reassembly or unread delivery, in the registered streams and
+// in the stream objects the application still holds after a reset unregistered them (extra).
+func heldTotal(a *Association, extra ...*Stream) (int, string) {
 	n := 0
 	bad := ""
 	cum := a.payloadQueue.cumulativeTSN
@@ -42,7 +44,19 @@ func heldTotal(a *Association) (int, string) {
 			bad = fmt.Sprintf("chunk with TSN %d is stored although the cumulative point is %d and the window %d", c.tsn, cum, w)
 		}
 	}
+	all := map[*Stream]bool{}
+	var list []*Stream
 	for _, s := range a.streams {
+		all[s] = true
+		list = append(list, s)
+	}
+	for _, s := range extra {
+		if s != nil && !all[s] {
+			all[s] = true
+			list = append(list, s)
+		}
+	}
+	for _, s := range list {
 		r := s.reassemblyQueue
 		for _, set := range r.ordered {
 			for _, c := range set.chunks {
@@ -116,7 +130,7 @@ func c11Scenario(cfg c11Cfg, seq []int) *Scenario {
 				peerLast := a.payloadQueue.cumulativeTSN
 				lastTSN, haveLast := a.payloadQueue.getLastTSNReceived()
 				creditBefore := a.getMyReceiverWindowCredit()
-				heldBefore, _ := heldTotal(a)
+				heldBefore, _ := heldTotal(a, s1)
 				ev0 := len(m.W.events)
 				expectNoGrowth := false
 				switch ev {
@@ -189,7 +203,7 @@ func c11Scenario(cfg c11Cfg, seq []int) *Scenario {
 					}
 				}
 				where := fmt.Sprintf("step %d (%s) of %v", step, c11Names[ev], c11SeqNames(seq))
-				held, bad := heldTotal(a)
+				held, bad := heldTotal(a, s1)
 				if bad != "" {
 					m.Failf("rwnd.window", "%s: %s", where, bad)
 				}
@@ -199,7 +213,13 @@ func c11Scenario(cfg c11Cfg, seq []int) *Scenario {
 				}
 				credit := a.getMyReceiverWindowCredit()
 				if credit != want {
-					m.Failf("rwnd.credit", "%s: advertised credit %d but buffer %d minus %d held bytes is %d", where, credit, cfg.rbuf, held, want)
+					// classified apart: the figure is right for the registered streams and only
+					// ignores what an already reset stream still holds for its reader
+					oracle := "rwnd.credit"
+					if reg, _ := heldTotal(a); reg != held && uint32(reg) < cfg.rbuf && credit == cfg.rbuf-uint32(reg) {
+						oracle = "rwnd.credit.after-reset"
+					}
+					m.Failf(oracle, "%s: advertised credit %d but buffer %d minus %d held bytes is %d", where, credit, cfg.rbuf, held, want)
 				}
 				if expectNoGrowth && held > heldBefore {
 					m.Failf("rwnd.admission", "%s: held bytes grew %d -> %d (credit before %d) although the chunk must not be stored", where, heldBefore, held, creditBefore)
